@@ -165,6 +165,7 @@ def _job(job):
         _e2e(st, job[1])
         _e2e_growing(st)
         _e2e_prior(st)
+        _big_list(st)
     elif kind == 'e2e_task':
         return _e2e_task(job[1])
     return st
@@ -327,6 +328,27 @@ def _e2e_prior(st):
         harness.reset_state()
 
 
+def _big_list(st):
+    """a candidate list longer than 10^4 with caps around and above it (no heuristic-specific clamp may leak into the sampler)"""
+    cr = _cr()
+    cands = [(f'c{i:05d}', 'label') for i in range(10500)]
+    for cap in (9999, 10001, 2 ** 15):
+        cr.GLOBAL_PRIOR_COMB_COUNTS.clear()
+        tally = Counter()
+        fails = []
+        for b in range(2):
+            fails = step(cr, cands, cap, tally, fairness=True)
+            st.count('evaluations')
+            st.count('transitions')
+            st.count('traces_validated')
+            if fails:
+                break
+        st.count('states', 2)
+        if fails:
+            st.violation({'kind': 'big_list', 'cap': cap}, '; '.join(f_[:300] for f_ in fails[:2]), {'family': 'big_list', 'fail': fails[0][:30]})
+    cr.GLOBAL_PRIOR_COMB_COUNTS.clear()
+
+
 def _e2e_task(job):
     """(c2) the complete ranking task on files with a trailing partial batch (> 1024 rows): combination_estimation_counts.json and the copy returned by
     estimate_importances_minibatches must equal the number of batches (including the tail batch) in which each candidate pair was evaluated"""
@@ -399,9 +421,14 @@ def run(ctx):
 
 def eval_case(case):
     """Replay one event history (family inferred from the events' shape) or an e2e configuration."""
+    if case.get('kind') == 'big_list':
+        st = Stats()
+        _big_list(st)
+        return [v['what'] for v in st.violations if v['case']['cap'] == case['cap']]
     if case.get('kind') == 'e2e_prior':
         st = Stats()
         _e2e_prior(st)
+        _big_list(st)
         return [v['what'] for v in st.violations if v['case']['cap'] == case['cap']]
     if case.get('kind') == 'e2e_growing':
         st = Stats()
